@@ -1,4 +1,73 @@
+/-
+C13 — property theorems (statements fixed by the architect; do not weaken).
+Helper lemmas go to PeroVerif/Lemmas/Lev.lean; this file only holds the property theorems and
+non-vacuity examples.
+-/
 import PeroVerif.Model.Lev
+import PeroVerif.Spec.Lev
+import PeroVerif.Lemmas.Lev
+
 namespace C13
-theorem placeholder : (1:Nat) = 1 := rfl
+open Lev
+variable {α : Type} [DecidableEq α]
+
+/-- The DP value is a lower bound for EVERY alignment of `s` with `t` (any costs, any lengths). -/
+theorem dist_le_cost (c : Costs) (s t : List α) (al : Alignment α)
+    (hw : WellFormed al) (hs : srcOf al = s) (ht : tgtOf al = t) :
+    dist c s t ≤ cost c al := (dist_isMin c s t).2 al hw hs ht
+
+/-- ... and it is attained: `dist` is the true minimum edit cost. -/
+theorem dist_attained (c : Costs) (s t : List α) :
+    ∃ al : Alignment α, WellFormed al ∧ srcOf al = s ∧ tgtOf al = t ∧ cost c al = dist c s t :=
+  (dist_isMin c s t).1
+
+/-- `levenshtein_alignment` never runs out of the matrix, projects to both inputs and has exactly the
+minimum cost. -/
+theorem alignment_correct (c : Costs) (s t : List α) :
+    ∃ al, alignment c s t = some al ∧ WellFormed al ∧ srcOf al = s ∧ tgtOf al = t ∧
+      cost c al = dist c s t := alignment_ok c s t
+
+/-- `levenshtein_alignment_path`: the `1 / 0 / -1` path fits both sequences and replays to the minimum. -/
+theorem path_correct (c : Costs) (s t : List α) :
+    ∃ p, alignmentPath c s t = some p ∧ pathCost c s t p = some (dist c s t) := by
+  obtain ⟨al, hal, hw, hs, ht, hc⟩ := alignment_ok c s t
+  refine ⟨pathOf al, by simp [alignmentPath, hal], ?_⟩
+  have := pathCost_pathOf c al hw
+  rwa [hs, ht, hc] at this
+
+/-- Substring variant: optimal over all infixes of the longer sequence (stated for all costs). -/
+theorem substring_optimal (c : Costs) (s t : List α) :
+    (∃ u, u <:+: (orient s t).1 ∧ dist c u (orient s t).2 = distSub c s t) ∧
+    (∀ u, u <:+: (orient s t).1 → distSub c s t ≤ dist c u (orient s t).2) :=
+  distSub_optimal c _ _ _ (distSub_isMinInf c s t)
+
+/-- Unit-cost distance is symmetric (needed because `from_lists` measures `(ref, hyp)` but aligns
+`(hyp, ref)`). -/
+theorem dist_unit_symm (s t : List α) : dist unit s t = dist unit t s :=
+  dist_symm unit rfl s t
+
+/-- A line's error summary: substitutions + insertions + deletions = distance, and the summary is
+always produced. -/
+theorem stats_sum (ref hyp : List α) :
+    ∃ x, Summary.fromLists ref hyp = some x ∧ x.subs + x.inss + x.dels = x.errors ∧
+      x.errors = dist unit ref hyp ∧ x.refLen = ref.length ∧ x.lines = 1 := by
+  obtain ⟨al, hal, hw, hs, ht, hc⟩ := alignment_ok unit hyp ref
+  refine ⟨_, fromLists_eq ref hyp al hal, ?_, rfl, rfl, rfl⟩
+  show (editStats al).2.2.2.2 + (editStats al).2.2.1 + (editStats al).2.2.2.1 = dist unit ref hyp
+  rw [editStats_sum al hw, hc]
+  exact dist_symm unit rfl hyp ref
+
+/-- Aggregation is plain (field-wise) addition. -/
+theorem aggregate_append (xs ys : List Summary) :
+    Summary.aggregate (xs ++ ys) = (Summary.aggregate xs).add (Summary.aggregate ys) :=
+  aggregate_append' xs ys
+
+theorem aggregate_singleton (x : Summary) : Summary.aggregate [x] = x :=
+  Summary.zero_add x
+
+/-! Non-vacuity: concrete instances, evaluated by the kernel. -/
+example : dist unit [1, 2, 3, 4] [9, 1, 2] = 3 := by decide
+example : distSub unit [1, 2, 3, 4] [9, 1, 2] = 1 := by decide
+example : alignment unit [1, 2, 3] [1, 3] = some [(some 1, some 1), (some 2, none), (some 3, some 3)] := by decide
+
 end C13
